@@ -137,11 +137,18 @@ def pick_universes(src_stms, dst_stms, opens, consts, tier, extra_pos, want):
         scored.append((-(ca + max(cb, 0)), len(scored), u, (ca, na, cb, nb)))
     scored.sort(key=lambda x: (x[0], x[1]))
     out = []
-    seen_scores = set()
     for sc, _, u, cov in scored:
         if len(out) >= want:
             break
-        out.append((u, cov))
+        if len(out) == 1 and want >= 2 and not any(abs(k) > 2 for k in astutil.int_constants(src_stms)):
+            # without larger constants in the program (their neighbourhoods come first among the candidates) the second
+            # universe is the best one with a negative value (sign-sensitive code: #sum+, |x|, x/2, x*x)
+            neg = [(s2, u2, c2) for s2, _, u2, c2 in scored if any(v.startswith("-") for v in u2["default"]) and u2 is not out[0][0]]
+            if neg and neg[0][0] <= scored[0][0] + 2:
+                out.append((neg[0][1], neg[0][2]))
+                continue
+        if all(u is not o[0] for o in out):
+            out.append((u, cov))
     return out
 
 
